@@ -17,6 +17,7 @@ import TdVerif.Model.Key
 import TdVerif.Model.C04Tree
 import TdVerif.Model.C04Spec
 import TdVerif.Lemmas.C04
+import TdVerif.Lemmas.C04Roundtrip
 
 namespace TdVerif.Props.C04
 open TdVerif TdVerif.Key TdVerif.C04
@@ -494,6 +495,75 @@ theorem flatten_content (sep : String) (kids : Kids) (hw : WF (.node kids)) (r :
 
 example : flattenOut "." (.node [("a", .node [("b", .leaf false 1)]), ("a.b", .leaf false 2)]) = .error .key := by
   simp [flattenOut, leavesOf, iterItems, iterItems.go, joinWith, dedup, Entry.isLeafFor]
+
+/-- `td.flatten_keys(sep).unflatten_keys(sep)` gives the nested dict back: when no key on the way to a leaf contains the
+separator, flattening succeeds, no rename of the unflatten loop is refused (`rename_key_(name, name.split(sep),
+safe=True)` for every flat name, in order), the result has unique keys, it binds **exactly the leaves of the original,
+each under its original path with its value**, and nothing else but the nested tensordicts leading to them (empty nested
+tensordicts of the original are dropped; the order of the root entries may change — flat names without separator keep
+their place, the others are re-inserted behind them). -/
+theorem flatten_unflatten_roundtrip (sep : Char) (kids : Kids) (hw : WF (.node kids))
+    (hs : ∀ p e, bound p e kids → e.isLeafFor true = true → ∀ c ∈ p, sep ∉ c.toList) :
+    ∃ fk bk, flattenOut (String.singleton sep) (.node kids) = .ok (.node fk) ∧
+      unflattenT sep true (.node fk) = (.node bk, .ok) ∧ WF (.node bk) ∧
+      (∀ p e, e.isLeafFor true = true → (bound p e bk ↔ bound p e kids)) ∧
+      (∀ q e, bound q e bk → ∃ p l, isPrefix q p = true ∧ bound p l kids ∧ l.isLeafFor true = true) := by
+  have hg := glob_leavesOf sep kids hw hs
+  have hi := inv_init sep _ hg
+  have hfk : (leavesOf (.node kids)).map (fun pv => (joinWith (String.singleton sep) pv.1, pv.2))
+      = flatKids (String.singleton sep) (.node kids) := rfl
+  rw [hfk] at hi
+  have hwf := hi.wf
+  have hn : (flatNames (String.singleton sep) (.node kids)).Nodup := by
+    rw [← flatKids_keys]; exact hwf.kids_nodup
+  obtain ⟨S', hloop, hfin⟩ := unflatten_loop_inv sep (leavesOf (.node kids)) [] _ (by simpa using hg) hi
+  simp only [List.nil_append] at hfin
+  obtain ⟨bk, rfl⟩ := hfin.nd
+  have hrk : rootKeys (.node (flatKids (String.singleton sep) (.node kids)))
+      = (leavesOf (.node kids)).map fun pv => joinWith (String.singleton sep) pv.1 := by
+    simp [rootKeys, flatKids]
+  have hspec : specUnflatten sep true (.node (flatKids (String.singleton sep) (.node kids))) = (.node bk, .ok) := by
+    simp only [specUnflatten, hrk, hloop]; rfl
+  have href := unflatten_refines sep true _ hwf
+  rw [hspec] at href
+  have hcode : unflattenT sep true (.node (flatKids (String.singleton sep) (.node kids))) = (.node bk, .ok) := by
+    obtain ⟨h1, h2⟩ := href
+    cases hc : unflattenT sep true (.node (flatKids (String.singleton sep) (.node kids))) with
+    | mk t o =>
+      rw [hc] at h1 h2
+      simp only at h1 h2
+      subst h1
+      cases o <;> simp [Out.erase] at h2 ⊢
+  refine ⟨_, bk, by rw [flattenOut_eq, if_pos hn], hcode, hfin.wf, ?_, ?_⟩
+  · intro p e hl
+    constructor
+    · intro hb
+      rcases hfin.all p e hb.1 hb.2 with ⟨pv, hm, hpre⟩ | ⟨pv, hm, _⟩
+      · obtain ⟨ext, hext⟩ := (isPrefix_iff_append _ _).mp hpre
+        have hd := hfin.done pv hm
+        obtain ⟨nt, x, he⟩ : ∃ nt x, e = .leaf nt x := by
+          cases e with
+          | leaf nt x => exact ⟨nt, x, rfl⟩
+          | node sub => simp [Entry.isLeafFor] at hl
+        cases ext with
+        | nil =>
+          simp at hext
+          have : some pv.2 = some e := by rw [← hd, hext, hb.2]
+          simp at this
+          have hmem : (p, e) ∈ leavesOf (.node kids) := by rw [← hext, ← this]; exact hm
+          exact ((mem_leavesOf kids hw p e).mp hmem).1
+        | cons e1 e2 =>
+          have := lookup_below_leaf p (e1 :: e2) (.node bk) nt x (by simp) (by rw [hb.2, he])
+          rw [← hext, hd] at this; simp at this
+      · simp at hm
+    · intro hb
+      have hmem := (mem_leavesOf kids hw p e).mpr ⟨hb, hl⟩
+      exact ⟨hb.1, hfin.done (p, e) hmem⟩
+  · intro q e hb
+    rcases hfin.all q e hb.1 hb.2 with ⟨pv, hm, hpre⟩ | ⟨pv, hm, _⟩
+    · have := (mem_leavesOf kids hw pv.1 pv.2).mp hm
+      exact ⟨pv.1, pv.2, hpre, this.1, this.2⟩
+    · simp at hm
 
 /-! ## §5 views -/
 
